@@ -364,6 +364,7 @@ func (stub *stub) Start(ctx context.Context) (retErr error) {
 		if retErr != nil {
 			rpcm.Close()
 			stub.rpcm = nil
+			stub.conn = nil
 		}
 	}()
 
